@@ -55,11 +55,12 @@ PROPS = {
         "trusted_base": ["EU868 maximum payload table transcribed in Model/Pipeline.lean (maxPayload)"],
     },
     "C07": {
-        "theorems": {**thms(P + "C07", ["C07_issued_strictly_increasing", "C07_issued_below_stored", "C07_next_is_fresh", "C07_encodes_with_issued_counter", "C07_persists_before_handover", "C07_failed_write_no_frame", "C07_handover"]),
-                     **thms("LospanVerif.Proofs.Counters", ["cinv_run", "eff_step"])},
+        "theorems": {**thms(P + "C07", ["C07_emitted_counter_unique", "C07_issued_strictly_increasing", "C07_issued_below_stored", "C07_next_is_fresh", "C07_encodes_with_issued_counter", "C07_persists_before_handover", "C07_failed_write_no_frame", "C07_handover", "C07_handover_records"]),
+                     **thms("LospanVerif.Proofs.Counters", ["cinv_run", "eff_step"]),
+                     **thms("LospanVerif.Proofs.Circ", ["kinv_run", "k_step", "ls_stepEncoder"])},
         "ties": PIPE_TIES,
         "engines": ["pipeseq", "pipectl"],
-        "assumptions": ["NextFCntDn is atomic (one transaction inside the storage mutex; Tie.Storage)", "the link from 'counter handed out' to 'frame emitted with it' is the encoder's program order (C07_encodes_with_issued_counter + C07_handover), not a single composed theorem", "a join starts a new session (new keys); uniqueness is per session and until the 16-bit counter wraps"],
+        "assumptions": ["NextFCntDn is atomic (one transaction inside the storage mutex; Tie.Storage)", "the FCnt recorded in the history variable emittedDn is the FCnt field of the frame value the encoder thread carries; that the emitted octets were encoded from that value is the per-step theorem C07_encodes_with_issued_counter", "a join starts a new session (new keys); uniqueness is per session and until the 16-bit counter wraps"],
         "trusted_base": ["pipeline handlers transcribed as thread programs in Model/Pipeline.lean"],
     },
     "C08": {
@@ -198,9 +199,9 @@ MANIFEST_TEXT = {
         "technique": "Lean 4 proof (sorted-insertion minimum, buffer round trip) + trace correspondence",
     },
     "C07": {
-        "level": "Lean theorems for EVERY event list: the downlink counters handed out for a device strictly increase within a session (C07_issued_strictly_increasing), stay below the stored counter (C07_issued_below_stored, also across crashes) and the next one is fresh (C07_next_is_fresh); the encoder encodes with exactly the counter handed out, after it has been stored past, and only its last step emits (C07_encodes_with_issued_counter, C07_persists_before_handover, C07_handover); a failed fetch yields no frame. Tied by facts (encoder call order, NextFCntDn is one critical section with both statements in one transaction) and by trace validation under the uplink-vs-encoder schedules; every emitted frame is decoded by the Lean device and (session key, counter) checked unique.",
-        "note": "partial only in that atomicity of the NextFCntDn transaction is trusted (SQLite + mutex) and 'handed out -> emitted with it' is program order proved per step",
-        "technique": "Lean 4 proof (invariant by induction over all event lists) + regenerated facts + trace correspondence + uniqueness oracle",
+        "level": "Lean theorems for EVERY event list (all interleavings of handler/scheduler/sendAt/encoder steps at storage-operation granularity, any number of frames and devices, injected faults, crashes): no (device, FCnt) of a running counter epoch is handed to the gateway twice and every emitted one was handed out by NextFCntDn (C07_emitted_counter_unique: a thread-pool invariant 'every counter in circulation - held by an encoder thread or already emitted - was issued, at most once', Proofs/Circ.lean); the counters handed out strictly increase and stay below the stored counter, also across crashes (C07_issued_strictly_increasing, C07_issued_below_stored, C07_next_is_fresh); per step: the encoder encodes with exactly the counter handed out, after it has been stored past, and only its last step emits. Tied by facts (encoder call order and error dispositions, NextFCntDn is one critical section with both statements in one transaction) and by trace validation under the uplink-vs-encoder and old-counter-vs-encoder schedules; every emitted frame is decoded by the Lean device and (session key, counter) checked unique and equal to the reference counter.",
+        "note": "partial only in that atomicity of the NextFCntDn transaction is trusted (SQLite + mutex); a join starts a new epoch (new keys), the 16-bit wrap ends one (excused by the property)",
+        "technique": "Lean 4 proof (counter invariant + thread-pool circulation invariant by induction over all event lists) + regenerated facts + trace correspondence + uniqueness oracle",
     },
     "C08": {
         "level": "Lean theorems on the outbox operations for every database state: invariant acknowledged => sent kept by every operation; only an acknowledging uplink acknowledges and only sent rows with its counter; an uplink without ACK re-queues exactly the confirmed, sent, unacknowledged rows; only unsent rows are transmitted (unconfirmed ones therefore at most once). Histories decided by state comparison of the outbox rows (sent?/acked?/fcnt) after every event on the real pipeline.",
